@@ -98,7 +98,7 @@ DEDICATED: list[str] = [
     "{% if nosuch and nosuch < 1 %}a{% else %}b{% endif %}|{% if x or nosuch < 1 %}c{% else %}d{% endif %}",
     "{% if y.zz and y.zz >= x %}a{% else %}b{% endif %}{% unless x or a > x %}c{% else %}d{% endunless %}",
     "{{ 'T' if x or a < 1 else 'F' }}{% if false and a > 1 %}a{% elsif nil and y < 1 %}b{% else %}c{% endif %}",
-    # found with tools/async_cov.py: lines of async code paths that no case above executed
+    # found with tools/line_cov.py: lines of async code paths that no case above executed
     "{% tablerow i in a %}{{ i }}{{ tablerowloop.col }}{{ tablerowloop.row }}{{ tablerowloop.col_last }}{% endtablerow %}|{% tablerow i in (1..x) %}{{ i }}{% endtablerow %}",
     "{% for j in y.b %}[{% tablerow i in a cols: 2 %}{% include 'brk' %}{{ i }}{% endtablerow %}]{% endfor %}",
     "{% for j in y.b %}[{% tablerow i in a %}{% include 'cnt' %}{{ i }}{% endtablerow %}]{% endfor %}",
@@ -174,7 +174,7 @@ class C01(Check):
         "product of 8 boolean environment flags x autoescape x {strict,lax}; L: get_template vs get_template_async "
         "on fresh loaders of 7 kinds x namespace modes x names; A: sync vs async analysis on every corpus program "
         "and dedicated template; X: liquid.render / Environment.render vs their _async twins on the dedicated corpus. "
-        "The dedicated corpus includes one template per async code line that tools/async_cov.py (line coverage of "
+        "The dedicated corpus includes one template per async code line that tools/line_cov.py (line coverage of "
         "every `async def` in the library under this check) found unexecuted and that is reachable from the "
         "statement's domain. Non-trivial = both renders completed with non-empty output or an error."
     )
